@@ -72,6 +72,60 @@ def check(ix, rep):
                         rep.fail('R-IOVARS', f.module.rel, f.qual, 'pastify:Variable@%d' % nv, 'the pastifier rebuilds a variable as `%s` without its io type: the copy is an output by '
                                  'default, so after pastify() predicates over a delayed input look output-sensitive' % ast.unparse(call)[:60], call.lineno)
     rep.floor('Variable reconstructions in the pastifier', nv, 1)
+    # the parser builds a Variable with the io signature declared for *that variable*: the io table is written under declared names
+    # (declare_var / set_var_io_type / the declaration rule), which contain no '.', so it has to be read under the same expression that
+    # becomes node.var -- the head of a dotted reference -- and by subscript: a .get() default turns an unregistered key into a direction
+    from sa import model as M_
+    npv = 0
+    for pv in M_.parser_visitors(ix):
+        for f in pv.methods.values():
+            for call in ast.walk(f.node):
+                if not (isinstance(call, ast.Call) and isinstance(call.func, ast.Name) and call.func.id == 'Variable' and call.args):
+                    continue
+                npv += 1
+                rep.analysed(f)
+                name_arg = ast.unparse(call.args[0])
+                io = call.args[2] if len(call.args) >= 3 else next((k.value for k in call.keywords if k.arg == 'iotype'), None)
+                defs = {}
+                for st in ast.walk(f.node):
+                    if isinstance(st, ast.Assign) and len(st.targets) == 1 and isinstance(st.targets[0], ast.Name):
+                        defs.setdefault(st.targets[0].id, []).append(st.value)
+                src = io
+                if isinstance(io, ast.Name) and len(defs.get(io.id, [])) == 1:
+                    src = defs[io.id][0]
+                slot = 'parser:Variable(%s)' % name_arg
+                # the first argument is the part before the first '.': bound once to <x>.split('.')[0] / the popped head
+                head_ok = False
+                if isinstance(call.args[0], ast.Name) and len(defs.get(call.args[0].id, [])) == 1:
+                    hv = defs[call.args[0].id][0]
+                    if isinstance(hv, ast.Subscript) and isinstance(hv.slice, ast.Constant) and hv.slice.value == 0:
+                        base = hv.value
+                        if isinstance(base, ast.Name) and len(defs.get(base.id, [])) == 1:
+                            base = defs[base.id][0]
+                        head_ok = isinstance(base, ast.Call) and isinstance(base.func, ast.Attribute) and base.func.attr == 'split' and base.args \
+                            and isinstance(base.args[0], ast.Constant) and base.args[0].value == '.'
+                if not head_ok and isinstance(call.args[0], ast.Name):
+                    # id_head, _, id_tail = id.partition('.')
+                    for st in ast.walk(f.node):
+                        if isinstance(st, ast.Assign) and isinstance(st.targets[0], ast.Tuple) and st.targets[0].elts and isinstance(st.targets[0].elts[0], ast.Name) \
+                                and st.targets[0].elts[0].id == call.args[0].id and isinstance(st.value, ast.Call) and isinstance(st.value.func, ast.Attribute) \
+                                and st.value.func.attr in ('partition', 'split') and st.value.args and isinstance(st.value.args[0], ast.Constant) and st.value.args[0].value == '.':
+                            head_ok = True
+                whole = isinstance(call.args[0], ast.Name) and any(isinstance(v, ast.Call) and 'getText' in ast.unparse(v) for v in defs.get(call.args[0].id, []))
+                if not head_ok and not whole:
+                    raise AnalysisError('%s: how `%s` is derived from the identifier is not recognised' % (f.where, name_arg))
+                if src is None:
+                    rep.fail('R-IOVARS', f.module.rel, f.qual, slot, 'the parser builds the variable without an io signature: every variable is an output', call.lineno)
+                elif isinstance(src, ast.Subscript) and ast.unparse(src.value) == 'self.var_io_dict' and ast.unparse(src.slice) == name_arg and head_ok:
+                    rep.ok('R-IOVARS', f.module.rel, f.qual, slot, 'io signature read from var_io_dict under the declared name (the head of the reference)', call.lineno)
+                elif not head_ok:
+                    rep.fail('R-IOVARS', f.module.rel, f.qual, slot, 'the name given to Variable is not the part of the reference before the first `.`: declarations (and the io table) '
+                             'know the variable, not its fields', call.lineno)
+                else:
+                    rep.fail('R-IOVARS', f.module.rel, f.qual, slot, 'the io signature is `%s`, not self.var_io_dict[%s]: the table is written under declared variable names, so a field '
+                             'reference `req.value` is looked up under a key that is never there (and a default then decides the direction): an input read through a field '
+                             'becomes an output' % (ast.unparse(src)[:60], name_arg), call.lineno)
+    rep.floor('Variable constructions in the parser', npv, 1)
     nt = iastl.check_standard_taint(ix, rep)
     rep.floor('functions scanned for io reads under STANDARD', nt, 300)
     # compression consistency of dense loops (a dropped verdict sample changes the substituted +-inf)
